@@ -17,7 +17,7 @@ CHECKS = {
    text="Proved: flatten restores the recursion counter on every exit, raises TemplateRecursion before running any callee when over the limit, swallows it only at the outermost call and then yields nothing; static: every callee MagicResolver.__call__ can dispatch to accepts the one positional argument; resource contracts of every #expr operator function (int ** int needs a bounded exponent, round a bounded digit count, only arithmetic errors escape); no magic / parser function evaluates a lazy argument inside a catch-all handler; #time's post-processor (roman numerals) cannot abort the expansion. Per-function size/CPU contracts of the remaining functions are bounded only (every registered name x 0..2/3 args x 11 shapes, every #time format code).",
    note="Trusted: Node.flatten callees satisfy the callee contract; compiled evaluate.pyx behaves as its source; roman.toRoman's contract (0..4999 or OutOfRangeError) read from the installed module."),
  "C04": dict(cat="proof", tech=T + "; static constant-table obligations" + B, ref="3/C04",
-   text="Proved: maybe_numeric_compare equals 'same text or same number' for all strings (int/float as partial functions); static: precedence chain, unary set, left-associative pop condition of #expr. Parameter binding, #if/#ifeq/#switch and the shunting-yard loop are bounded only.",
+   text="Proved: maybe_numeric_compare equals 'same text or same number' for all strings (int/float as partial functions); static: precedence chain and unary set of #expr; the two pop loops of the #expr evaluator against their operational definition over an abstract operator stack (closing parenthesis: exactly the operators above the nearest '('; operator token: exactly the maximal top segment binding at least as tight, nothing for a prefix operator; sign after an operator is a prefix operator). Parameter binding, #if/#ifeq/#switch and parse_expr's driver loop are bounded only.",
    note="nodes.pyx / evaluate.pyx node classes are not under contract."),
  "C05": dict(cat="proof", tech=T + " over an abstract tree heap; static frame obligation over the real AST (complete scan)" + B, ref="3/C05",
    text="Proved: the tree primitives _id_index, append_child, replace_child, remove_child, move_to and copy meet behavioural contracts over an abstract tree heap (result, full frame, parent links) and each preserves well-formedness (every listed child points back, every attached node is listed once, the root has no parent); copy restores the parent link on every exit. Decided statically (complete over the files): nodes are attached only inside these primitives and extend_classes. One step of remove_broken_children never dissolves a table/row/list into its parent. That each of the ~55 passes calls the primitives within their preconditions, and the container typing after the full sequence, are observed by the bounded stand-in only.",
